@@ -38,3 +38,24 @@ def native_replay(rep):
     if bad is None:
         return {"confirmed": False, "observed": f"no unlisted disagreement among {n} generated templates"}
     return {"confirmed": True, "observed": bad, "found_by": f"bounded template generation ({n} cases)"}
+
+
+# ---------------------------------------------------------------- per-slot substitution contracts (the closures handed to re.sub)
+# The nested replacement functions are verified with their free variables (context, warnings, self) as arbitrary inputs and the regex
+# match object as an opaque object whose .group(n) is a deterministic function of n.  What is proved is the value substituted for ONE
+# slot; that re.sub calls the function once per non-overlapping match, left to right, is the (external) regex contract.
+GROUP = {"match.group": {"function": "match_group", "returns": "str"}}
+CLOS = {"self": "obj:Ribosome", "context": "dict:str,any", "warnings": "list:str"}
+PV = T + "._process_variables"
+contract(PV + ".replace_optional", "C12", params={"match": "callback"}, callbacks=GROUP, raises=[], options={"closure": CLOS},
+         ensures={"bound-optional-renders-its-value": "implies(match.group(1) in context, result == str(context[match.group(1)]))",
+                  "unbound-optional-renders-empty": "implies(match.group(1) not in context, result == '')",
+                  "no-warning": "len(warnings) == len(old(warnings))"})
+contract(PV + ".replace_simple", "C12", params={"match": "callback"}, callbacks=GROUP, raises=[], options={"closure": CLOS},
+         ensures={"bound-variable-renders-its-value": "implies(match.group(1) in context, result == str(context[match.group(1)]) and len(warnings) == len(old(warnings)))",
+                  "unbound-variable-is-kept-and-warned": "implies(match.group(1) not in context, result == match.group(0) and len(warnings) == len(old(warnings)) + 1)"})
+contract(PV + ".replace_filtered", "C12", params={"match": "callback"}, raises=["Exception"], options={"closure": CLOS},    # a registered filter may raise
+         callbacks=GROUP,
+         ensures={"unbound-is-left-for-later-passes": "implies(match.group(1) not in context, result == match.group(0))",
+                  "unknown-filter-renders-plain-value-and-warns": "implies(match.group(1) in context and match.group(2) not in self.filters, "
+                                                                  "result == str(context[match.group(1)]) and len(warnings) == len(old(warnings)) + 1)"})
